@@ -1,9 +1,11 @@
 package main
 
 import (
+	"bytes"
 	"fmt"
 	"math/rand"
 	"os"
+	"path/filepath"
 	"strings"
 
 	"verif/core"
@@ -77,7 +79,34 @@ func convCLIOut(c *core.Ctx, stream string, idx int, k theory.Key, chain string,
 		case 19:
 			route = "-o /dev/null"
 			args = append(args, "--output=/dev/null")
+		case 3:
+			route = "stdout appended to a log"
+		case 5:
+			route = "stdout is a socket"
+		case 9:
+			route = "files named like the chain in the working directory"
 		}
+	}
+	var opt runner.Opt
+	logPath, logOld := "", []byte("info key conv --key C -c d\nG\n")
+	switch route {
+	case "stdout appended to a log":
+		// `crd ... >> log`: the descriptor is positioned behind what the log holds already
+		logPath = c.Scratch.File("conv.log", logOld)
+		opt.Redirect = ">>" + logPath
+	case "stdout is a socket":
+		opt.StdoutKind = "socket"
+	case "files named like the chain in the working directory":
+		// -c is a chain of steps, not the name of a file
+		dir := c.Scratch.Path("chaindir")
+		os.MkdirAll(dir, 0o755)
+		for _, n := range []string{"d", "s", "r", "p", "dd", "ps", "sp"} {
+			os.WriteFile(filepath.Join(dir, n), []byte("s\n"), 0o644)
+		}
+		if len(chain) < 200 {
+			os.WriteFile(filepath.Join(dir, chain), []byte("rp\n"), 0o644)
+		}
+		opt.Dir = dir
 	}
 	// the conversion has two inputs, --key and -c: whatever waits on the standard input and whatever the environment
 	// holds is none of its business (every fifth case gets another chain on stdin and CRD_* variables)
@@ -85,6 +114,17 @@ func convCLIOut(c *core.Ctx, stream string, idx int, k theory.Key, chain string,
 	if idx%5 == 2 {
 		r = c.Crd.Run(runner.Opt{Stdin: []byte([]string{"s", "pd\n", "rrr", "x", "d d d\n"}[idx/5%5]), CPUSec: cpu,
 			Env: []string{"CRD_KEY=" + []string{"Eb", "F#m", "H", "C"}[idx/5%4], "CRD_COMMAND=s", "CRD_C=p", "KEY=Gb", "CRD_OUTPUT=/dev/null", "CRD_DEBUG=1"}}, args...)
+	} else if route != "" && (opt.Redirect != "" || opt.StdoutKind != "" || opt.Dir != "") {
+		opt.Stdin, opt.CPUSec = []byte{}, cpu
+		r = c.Crd.Run(opt, args...)
+		if logPath != "" && r.OK() {
+			got := readFileOrNil(logPath)
+			if !bytes.HasPrefix(got, logOld) {
+				c.Violate(stream, idx, fmt.Sprintf("conv:%s:log-clobbered", k), fmt.Sprintf("`crd info key conv --key %s -c %s >> log`: what the log held before is gone (%d bytes now, %d before)", k, short(chain, 40), len(got), len(logOld)), obs(r))
+				return
+			}
+			r.Stdout = got[len(logOld):]
+		}
 	} else {
 		r = runCPU(c, cpu, nil, args...)
 	}
